@@ -335,14 +335,14 @@ def with_model(ctx, pid, hs, cfgmaker):
 PROFILES = {
     "C03": dict(versions=[5, 5, 4], rpi=[-1, -1, 0, 1], shared=0.15, nolocal=0.3, props=0.6, subid=0.3, qos=[0, 1, 2], retain=0.0,
                 weights=dict(subscribe=6, unsubscribe=1, publish=9, disconnect=1, connect=2), acl=2),
-    "C04": dict(versions=[5, 5, 4], shared=0.1, rap=0.4, subid=0.6, qos=[0, 1, 2], retain=0.4, rh=[0, 0, 1, 2],
-                weights=dict(subscribe=7, unsubscribe=1, publish=9, disconnect=0, connect=1), maxqos=[0, 1, 2, 2]),
+    "C04": dict(versions=[5, 5, 4], shared=0.1, rap=0.4, subid=0.6, qos=[0, 1, 2], retain=0.4, rh=[0, 0, 1, 2], sei=[300],
+                weights=dict(subscribe=7, unsubscribe=1, publish=9, disconnect=0, connect=1, resub_resume=2), maxqos=[0, 1, 2, 2]),
     "C05": dict(versions=[5, 5, 4], shared=0.15, qos=[0, 1], retain=0.7, empty_payload=0.25, rh=[0, 1, 2], topics=gen.TOPICS[:5],
                 weights=dict(subscribe=8, unsubscribe=1, publish=8, disconnect=1, connect=1, resub_clean=2), retain_avail=[1, 1, 1, 0]),
     "C06": dict(versions=[5, 5, 4], shared=0.6, qos=[0, 1, 2], clients=["c1", "c2", "c3", "c4", "c5"], p_clean=0.8,
                 weights=dict(subscribe=8, unsubscribe=1, publish=10, disconnect=1, connect=2)),
-    "C07": dict(versions=[5, 4, 3], shared=0.1, qos=[0, 1, 2], sys_topics=0.15, bad_filters=0.15, acl=3, p_single_filter=0.5,
-                weights=dict(subscribe=5, unsubscribe=3, publish=9, disconnect=1, connect=1)),
+    "C07": dict(versions=[5, 4, 3], shared=0.1, qos=[0, 1, 2], sys_topics=0.15, bad_filters=0.15, acl=3, p_single_filter=0.5, p_rel=0.6,
+                weights=dict(subscribe=5, unsubscribe=3, publish=9, disconnect=1, connect=1, dup_publish=3)),
     "C17": dict(versions=[5, 5, 4], shared=0.1, qos=[0, 1, 2], retain=0.4, sys_topics=0.1, acl=6, wills=0.5, obscure=[False, False, True],
                 weights=dict(subscribe=6, unsubscribe=1, publish=8, disconnect=3, connect=3)),
 }
@@ -376,8 +376,8 @@ QOS_PROFILES = {
                 max_packet_id=[0, 0, 4, 6]),
     "C11": dict(weights=dict(publish=12, ack=10, reconnect=3, drop=0, ping=2, rel=4, takeover=1), rm=[1, 1, 2, 3], rm_reconnect=[1, 1, 2], qos=[0, 1, 1, 2, 2], sei=[300],
                 recv_max=[1, 2, 3, 4], subs_publish=True, drain=True, p_rel_now=0.4),
-    "C12": dict(weights=dict(publish=14, ack=8, reconnect=3, drop=1, ping=1, rel=2, takeover=1), rm=[1, 2, 0], qos=[1, 2], topics=[["a"], ["b"]], sei=[300],
-                filters=[["#"], ["a"], ["+"]], publishers=["c1"], subscribers=["c2"], drain=True, p_rel_now=1.0),
+    "C12": dict(weights=dict(publish=14, ack=8, reconnect=3, drop=1, ping=1, rel=2, takeover=1, stall_burst=2), rm=[1, 2, 0], qos=[1, 2], topics=[["a"], ["b"]], sei=[300],
+                filters=[["#"], ["a"], ["+"]], publishers=["c1"], subscribers=["c2"], drain=True, p_rel_now=1.0, write_buf=[2048, 2048, 64]),
 }
 
 ENFORCE = {"C03": ["C03"], "C04": ["C04"], "C05": ["C05"], "C06": ["C06"], "C07": ["C07"], "C17": ["C17"]}
@@ -401,6 +401,8 @@ def qos_histories(ctx, pid, n):
             c["recv_max"] = rng.choice(prof["recv_max"])
         if prof.get("max_packet_id"):
             c["max_packet_id"] = rng.choice(prof["max_packet_id"])
+        if prof.get("write_buf"):
+            c["write_buf"] = rng.choice(prof["write_buf"])
         hs.append(dict(name="%s-%d-%d" % (pid, ctx.seed, i), cfg=c, ops=gen.qos_history(rng, prof)))
     return hs
 
